@@ -332,6 +332,25 @@ FlipClass(c, TL, pos) ==
                         /\ (IF q \in against THEN f[1] <= f[2] ELSE f[1] >= -f[2])
             THEN "geometric-quad-flip" ELSE "none"
 
+(***************************************************************************)
+(* Outward (polygon family): the ring runs counter-clockwise about the     *)
+(* path direction by construction, so the reference sense of a quad        *)
+(* (<<k,s>>, <<k,s+1>>, <<k+1,s+1>>, <<k+1,s>>) is the one whose normal    *)
+(* points away from the path.  Every quad for which that is clearly so on  *)
+(* the recorded positions (the code's own criterion beyond the rounding    *)
+(* slack) must be wound in the reference sense.  Quads that are folded     *)
+(* over (criterion negative or within the slack) are not judged here.      *)
+(***************************************************************************)
+OutwardOK(c, TL, pos) ==
+    LET TS == [i \in DOMAIN TL |-> {TL[i][1], TL[i][2], TL[i][3]}]
+    IN \A q \in Quads(c) :
+          LET f == FlipCriterion(c, pos, q)
+          IN (Small(Off(c, pos, q[1][1] * RingLen(c) + q[1][2] + 1)) /\ f[1] > f[2]) =>
+                \A i \in {i \in DOMAIN TL : TS[i] \subseteq Corners(q)} : Sense(q, TL[i])
+OutwardJudged(c, TL, pos) ==
+    Cardinality({q \in Quads(c) : LET f == FlipCriterion(c, pos, q)
+                                  IN Small(Off(c, pos, q[1][1] * RingLen(c) + q[1][2] + 1)) /\ f[1] > f[2]})
+
 (* ------------------------- Screw: closed form ------------------------- *)
 \* sin / cos of a/b of a full turn, times 2^14 (BigNat fixed point, error < 2^-13)
 Fix14(x) == Limb(x, 3) * K + Limb(x, 2)
